@@ -106,7 +106,8 @@ class CHECK(core.Check):
                   "<= 0 (_partial; counterexample for importance 0 proved, finding D25); trusted (D24 repaired) = first "
                   "maximum of (truth, importance) in lexicographic order among selected sufficient inputs, full given default "
                   "truth >= 0; weighted = (sum imp*truth*value / sum imp*truth, sum imp*truth / sum imp) iff all selected values "
-                  "numeric, both sums non-zero and the weighted truth exceeds the default, else default (full); FixTruth range; "
+                  "numeric, both sums non-zero and the weighted truth exceeds the default, else default (full), and with non-negative "
+                  "importances that value lies between the smallest and largest selected value and the truth in (0,1]; FixTruth range; "
                   "nothing selected -> default for all four; the only exceptions inside weighted are the two it catches; the "
                   "D24 repair changes nothing where the original did not raise.")
     LEVEL_NOTE = ("Trusted: Lean kernel; axioms propext, Classical.choice, Quot.sound; hand transcription of arbiting.py "
